@@ -31,7 +31,8 @@ Record creq := mkReq { rq_method : str; rq_target : str; rq_host : str; rq_heade
     the wire (empty for HEAD, 204, 304); [rs_gunzipped] its gzip decoding when it
     is a non-empty valid gzip stream (computed by the generator). *)
 Record cresp := mkResp { rs_status : N; rs_headers : headers; rs_body : str; rs_gunzipped : option str;
-                         rs_chunked : bool (* length not announced: Transfer-Encoding: chunked *) }.
+                         rs_chunked : bool (* length not announced: Transfer-Encoding: chunked *);
+                         rs_early : list N (* statuses of the informational (1xx) responses sent ahead of the final one *) }.
 
 (** What was observed.  Header lists carry canonical keys; framing headers
     (Content-Length, Transfer-Encoding, and Connection on the client side) are
@@ -41,7 +42,10 @@ Record cobs := mkObs {
   o_hit : bool; o_svc : N; o_method : str; o_target : str; o_host : str;
   o_theaders : headers; o_tbody : str;
   o_rid_unique : bool;       (* the X-Request-Id seen by the target occurs in no other exchange of the run *)
-  o_start_in_window : bool   (* X-Request-Start lies between send and receive time of the client *) }.
+  o_start_in_window : bool;  (* X-Request-Start lies between send and receive time of the client *)
+  o_early : list N           (* statuses of the informational responses the client received before the final one *) }.
+
+Definition statuses_eqb (a b : list N) : bool := list_eqb N.eqb a b.
 
 Record ccase := mkCase { c_bindings : list binding; c_req : creq; c_resp : cresp; c_obs : cobs }.
 
@@ -91,7 +95,7 @@ Definition agree (c : ccase) : bool :=
     o_hit o && (o_svc o =? svc)
     && str_eqb (o_method o) (rq_method rq) && str_eqb (o_target o) target && str_eqb (o_host o) (rq_host rq)
     && headers_eqb (o_theaders o) th && str_eqb (o_tbody o) (rq_body rq)
-    && (o_status o =? rs_status rs)
+    && (o_status o =? rs_status rs) && statuses_eqb (o_early o) (rs_early rs)
     && match drop_added K_date date (o_headers o) with
        | Some h1 => (match drop_added K_ct sniff h1 with
                      | Some h2 => headers_eqb h2 rh
@@ -196,7 +200,7 @@ Definition judge (c : ccase) : verdict :=
      end)
     (proxy_id_ok K_rid uuid_shape (o_rid_unique o) sent oth)
     (proxy_id_ok K_rstart millis_shape (o_start_in_window o) sent oth)
-    (o_status o =? rs_status rs)
+    ((o_status o =? rs_status rs) && statuses_eqb (o_early o) (rs_early rs))
     (let exp := strict_rheaders rs in headers_eqb (date_adjusted exp (o_headers o)) exp)
     (str_eqb (o_body o) (rs_body rs)).
 
